@@ -67,7 +67,8 @@ CONV_V2 = [P_ + 'v2::convert::' + f for f in ('write::hot_cues', 'write::loops',
 def _c06_functions():
     import os, re
     f = os.path.join(os.path.dirname(os.path.dirname(os.path.abspath(__file__))), 'contracts', 'track_v2_c06.spec')
-    return [l.strip()[4:-1] for l in open(f) if l.startswith('[fn djinterop::engine::v2::track_impl::')]
+    return [l.strip()[4:-1] for l in open(f) if l.startswith('[fn djinterop::engine::v2::track_impl::')] + \
+           ['harness:' + l.strip()[9:-1] for l in open(f) if l.startswith('[harness ')]
 
 
 PROPS = {
@@ -79,8 +80,9 @@ PROPS = {
         'assumptions': [
             'PARTIAL: decided for schema 2.x only, per operation: every public getter and setter of v2::track_impl (26 fields incl. the per-slot cue / loop accessors) against a GHOST COLUMN STORE that stands for the SQL table layer',
             'ASSUMED, not decided (it is SQL: C18 under not_applicable): each track_table::get_X / set_X pair reads / overwrites exactly one column of the addressed row and nothing else, on every 2.x schema version, through the blob codecs (C03/C04); other tracks are other rows and are not touched by a single-row statement',
-            'the step from the per-operation contracts to "after ANY sequence of setter calls each getter returns the value last set" is an induction over the history with the ghost columns as state (each setter writes only the stated columns and preserves the other fields of a shared blob; each getter is a function of its own columns / blob fields): the induction itself is argued, not mechanised',
-            'getter-after-setter values: the composition R(W(x)) per field is the same composition that the C01 lemma harness checks for the snapshot path; here it is read off the two contracts of the pair',
+            'the single step is mechanised as 26 lemma harnesses over the contracts (C06.step.set_<field>: from an arbitrary stored state, all 23 getters before, the setter, all 23 getters after: the own getter returns the normalised argument, every other getter returns what it returned before); "after ANY sequence of setter calls" is the repetition of that step (each step starts from an arbitrary state), which is not a separate obligation',
+            'per-slot setters: the step lemma looks at the cue / loop list getter at the index (ghost element = index); that every OTHER slot is kept is the postcondition other_slots_kept of set_hot_cue_at / set_loop_at themselves (second ghost index), not repeated in the step lemma',
+            'a failed (throwing) setter call is not examined here (that is C14)',
             'NOT covered: schema 1.x (engine_track_impl setters read-modify-write PerformanceData and metadata rows); agreement of the getters with snapshot() is covered only in that both are specified over the same columns with the same conversions (C01 contracts for snapshot())',
             'strings are compared by provenance token, vectors through one arbitrary element (ghost indices), as for C01; the waveform setter is specified up to what a round trip needs (length, and every entry for an overview-length waveform)',
             'domain: stored length within +-2^63/1000 s for duration(); stored sample rate in [0, 2^31] for set_waveform',
